@@ -22,7 +22,7 @@ def _allclose(a, b):
     return None if d <= TOL * scale else 'max abs diff %.3g (scale %.3g)' % (d, scale)
 
 
-def scratch_cost(model, spec, example_inputs):
+def scratch_cost(model, spec, example_inputs, skip=(), lookup_vars=None):
     """A cost metric computed from scratch on a plain network: cost-spec look-up over its leaf
     conv/linear modules with their traced output shapes (unique modules for shared metrics)."""
     import torch.fx as fx
@@ -37,14 +37,29 @@ def scratch_cost(model, spec, example_inputs):
         layer = gm.get_submodule(str(n.target))
         if not isinstance(layer, (nn.Conv1d, nn.Conv2d, nn.Linear)):
             continue
+        if str(n.target) in skip:
+            continue
         if spec.shared and str(n.target) in seen:
             continue
         seen.add(str(n.target))
         v = dict(vars(layer))
         v['output_shape'] = n.meta['tensor_meta'].shape
-        fn = spec[(type(layer), v)]
+        fn = spec[(type(layer), (lookup_vars or {}).get(str(n.target), v))]
         total += float(fn(v))
     return total
+
+
+def _folded_bias(prog, layers, fold):
+    """Biases that BatchNorm folding creates on bias-free layers (they are real parameters of the
+    imported and of the exported network, absent from the user's model)."""
+    if not fold:
+        return 0
+    extra = 0
+    for i, l in layers.items():
+        m = prog[i][-1]
+        if m.bias is None and l.bias is not None:
+            extra += l.bias.numel()
+    return extra
 
 
 def numel_params(model):
@@ -179,8 +194,15 @@ def _run_case(spec):
             cc = float(pit.get_cost(cname))
             pit.discrete_cost = True
             dc = float(pit.get_cost(cname))
-            ref = scratch_cost(e0, cs, [x[:1] for x in xs]) if not full else None
-            init[cname] = {'continuous': cc, 'discrete': dc, 'seed_model': ref}
+            skip = () if full else ['n%d' % i for i in excl]
+            fb = _folded_bias(prog, layers, fold)
+            try:
+                # a bias created by BatchNorm folding is a parameter of the imported network that the
+                # user's model does not have: the reference is then the network exported at once
+                ref = scratch_cost(net if fb == 0 else e0, cs, [x[:1] for x in xs], skip)
+            except Exception as ex:
+                ref = 'error %s: %s' % (type(ex).__name__, str(ex)[:120])
+            init[cname] = {'continuous': cc, 'discrete': dc, 'seed_model': ref, 'folded_bias': fb}
         res['init_cost'] = init
         # ---------------------------------------------------------------- mask assignments
         snap = {k: v.clone() for k, v in pit.seed.state_dict().items()}
@@ -267,12 +289,20 @@ def _run_case(spec):
                 except Exception as ex:
                     costs[cname] = {'error': '%s: %s' % (type(ex).__name__, str(ex)[:120])}
                     continue
-                ref = None
-                if not full and not excl:
-                    ref = scratch_cost(e, cs, [x[:1] for x in xs])
-                elif full:
-                    ref = scratch_cost(e, cs, [x[:1] for x in xs])
+                # without full_cost only the searchable layers are charged
+                skip = () if full else ['n%d' % i for i in excl]
+                try:
+                    ref = scratch_cost(e, cs, [x[:1] for x in xs], skip)
+                except Exception as ex:
+                    ref = 'error %s: %s' % (type(ex).__name__, str(ex)[:120])
                 costs[cname] = {'pit': c, 'export': ref}
+                if not isinstance(ref, str) and ref != c:
+                    # same computation, but every layer classified (generic / depthwise) as its seed layer was
+                    try:
+                        lv = {'n%d' % i: dict(vars(ins[-1])) for i, ins in enumerate(prog) if ins[0] in ('conv', 'dw', 'lin')}
+                        costs[cname]['export_seed_kind'] = scratch_cost(e, cs, [x[:1] for x in xs], skip, lv)
+                    except Exception:
+                        pass
             costs['numel_export'] = numel_params(e)
 
             a['costs'] = costs
